@@ -47,6 +47,7 @@ FUNCTIONS = {
             ('select_c03', 'listing.Listing.report'), ('runner_order', 'runner.order_by_bases'),
             ('runner_order', 'runner.Runner.ordered_layers'), RUN_TESTS, RUNNER_LOOP,
             ('runner_spawn', 'runner.spawn_layer_in_subprocess'), ('features_c18', 'runner.Runner.run')],
+    'C06': [('runner_sched', 'runner.resume_tests'), ('runner_spawn', 'runner.spawn_layer_in_subprocess')],
     'C10': [('runner_order', f) for f in ('runner.gather_layers', 'runner.order_by_bases', 'runner.order_by_bases@unitfirst',
                                           'runner.layer_sort_key', 'runner.layer_sort_key._gather',
                                           'runner.Runner.ordered_layers')],
@@ -267,5 +268,23 @@ MANIFEST = {
                 "test itself; 'exactly one process' rests on Filter's child post (only the resumed layer) plus the run "
                 "loop handing each remaining layer to exactly one spawn (resume_tests: see C06). Assumed: two registered "
                 "names never denote the same layer object; generator consumed as its completed result list.",
+    },
+    'C06': {
+        'text': "Proof for sentences 2 and 3 (output order, at most N alive, up to N in progress), for EVERY sequence of "
+                "is_alive()/done observations the OS scheduler can produce: resume_tests is executed symbolically with the "
+                "observations arbitrary under a stated rely (a thread observed dead stays dead; a dead thread's result is "
+                "done; done is monotone). Discharged: one thread per layer wired to the result of the same index, "
+                "consecutive resume numbers; a thread is started once and only into a free slot (len(running) < N at "
+                "thread.start()); every started thread not observed dead occupies a slot of running_threads (so at most N "
+                "children are alive); after the start loop all N slots are taken or nothing waits; the reverse-index reap "
+                "loop deletes exactly the threads observed dead; at stdout.writelines the block is results[printed], seen "
+                "done, written whole; at exit printed == number of layers (each block exactly once, in sequential order). "
+                "The rely's R2 is the proved 'result.done = True in the outermost finally' of spawn_layer_in_subprocess. "
+                "Sentence 1 (a -j N run equals the sequential run) is NOT a postcondition of any function: it is covered only "
+                "as the composition C03 (same selection per child) + C07 (lossless transfer) + C12 (sums), and by the "
+                "bounded oracle with real -j runs.",
+        'note': COMMON_NOTE + "Assumed: the rely R1-R3; threading.Thread/queue.Queue stdlib behaviour; a test's outcome does "
+                "not depend on the process it runs in (sentence 1). The final counting step (members of a list of length "
+                "<= N are at most N threads) is outside SMT. Liveness (the loop terminates) is not decided.",
     },
 }
